@@ -608,11 +608,13 @@ func main() {
 	for _, s := range lbp.zeroSyms {
 		zs = append(zs, qs(s))
 	}
-	fmt.Fprintf(&b, "Definition infix_lbp : lbpconsts := mkLbp %s %s %s %s %s %s %s %s %s %s %s %s [%s] %s %s %s %s %s %s.\n",
+	selMax := analyseSelector(need("normalizeArraySelector"))
+	checkRangeBinding(need("lowerRangeBinding"))
+	fmt.Fprintf(&b, "Definition infix_lbp : lbpconsts := mkLbp %s %s %s %s %s %s %s %s %s %s %s %s [%s] %s %s %s %s %s %s %d.\n",
 		qz(lbp.c["SexpInt"]), qz(lbp.c["SexpFloat"]), qz(lbp.c["SexpBool"]), qz(lbp.c["SexpStr"]),
 		qz(lbp.c["SexpArray"]), qz(lbp.c["SexpComma"]), qz(lbp.c["SexpSemicolon"]), qz(lbp.c["SexpComment"]),
 		qz(lbp.c["SexpPair"]), qz(lbp.c["SexpHash"]), qz(lbp.dot), qz(lbp.symDefault),
-		strings.Join(zs, "; "), qz(lbp.zeroVal), qz(lbp.noLed), qs(keys.comma), qs(keys.dot), qz(arrayBp), arrayLed)
+		strings.Join(zs, "; "), qz(lbp.zeroVal), qz(lbp.noLed), qs(keys.comma), qs(keys.dot), qz(arrayBp), arrayLed, selMax)
 	fc := analyseFor(need("lowerGoFor"), need("lowerRangeFor"))
 	fmt.Fprintf(&b, "\n(* lowerGoFor / lowerRangeFor: semicolons of a three-clause header; guard `len(header) %s assignPos+%d`\n   in front of header[assignPos+%d]; sourceTokens := header[assignPos+%d:] *)\n", fc.guardOp, fc.guardOff, fc.indexOff, fc.sourceOff)
 	fmt.Fprintf(&b, "Definition for_consts : forconsts := mkFor %d %v %d %d %d.\n", fc.nsemi, fc.guardOp == "<=", fc.guardOff, fc.indexOff, fc.sourceOff)
@@ -926,4 +928,68 @@ func analyseFor(goFor, rangeFor *ast.FuncDecl) forInfo {
 		die(rangeFor.Pos(), "lowerGoFor/lowerRangeFor: guard, index, slice or semicolon count not found (%+v)", fi)
 	}
 	return fi
+}
+
+// analyseSelector reads the "nothing to parse" short-cut of normalizeArraySelector:
+// if len(tokens) <= N  (or < N) { return &SexpArray{Val: tokens ...} }  -> largest length passed through unparsed
+func analyseSelector(fd *ast.FuncDecl) int {
+	found, val := 0, 0
+	for _, st := range fd.Body.List {
+		is, ok := st.(*ast.IfStmt)
+		if !ok {
+			continue
+		}
+		be, ok := is.Cond.(*ast.BinaryExpr)
+		if !ok || src(be.X) != "len(tokens)" {
+			continue
+		}
+		n, ok := intLit(be.Y)
+		if !ok || (be.Op != token.LEQ && be.Op != token.LSS) {
+			die(is.Pos(), "normalizeArraySelector: guard `%s` has an unknown shape", src(is.Cond))
+		}
+		rs, ok := is.Body.List[len(is.Body.List)-1].(*ast.ReturnStmt)
+		if !ok || len(rs.Results) != 2 || !strings.Contains(src(rs.Results[0]), "Val: tokens") {
+			die(is.Pos(), "normalizeArraySelector: the short-cut does not return the tokens unparsed")
+		}
+		if be.Op == token.LSS {
+			n--
+		}
+		found++
+		val = n
+	}
+	if found != 1 {
+		die(fd.Pos(), "normalizeArraySelector: expected exactly one `len(tokens) <= N` short-cut, found %d", found)
+	}
+	if !strings.Contains(src(fd.Body), "parseArraySelectorIndex(env, tokens)") {
+		die(fd.Pos(), "normalizeArraySelector: the index is not parsed by parseArraySelectorIndex(env, tokens)")
+	}
+	return val
+}
+
+// checkRangeBinding: the single-target branch of lowerRangeBinding must choose def for := and set for =,
+// the two-target branch mdef under `if define`.
+func checkRangeBinding(fd *ast.FuncDecl) {
+	okSet, okDef, okMdef := false, false, false
+	ast.Inspect(fd.Body, func(n ast.Node) bool {
+		switch x := n.(type) {
+		case *ast.AssignStmt:
+			if len(x.Lhs) == 1 && src(x.Lhs[0]) == "op" && x.Tok == token.DEFINE && src(x.Rhs[0]) == "\"set\"" {
+				okSet = true
+			}
+		case *ast.IfStmt:
+			if src(x.Cond) == "define" {
+				b := src(x.Body)
+				if strings.Contains(b, "op = \"def\"") {
+					okDef = true
+				}
+				if strings.Contains(b, "\"mdef\"") {
+					okMdef = true
+				}
+			}
+		}
+		return true
+	})
+	if !okSet || !okDef || !okMdef {
+		die(fd.Pos(), "lowerRangeBinding: unknown shape (single target: op := \"set\"; if define { op = \"def\" }: %v/%v; two targets: mdef under `if define`: %v)", okSet, okDef, okMdef)
+	}
 }
